@@ -100,6 +100,24 @@ def universe(rng, sysr):
         B[1][2][:] = [dep(X), dep(Y)]
         R2[1][2][:] = [dep(B, Y[0])]
         roots += [[R1[0], v(R1)], [R2[0], v(R2)], [R1[0], v(R1)]]
+    if sysr == 1 and len(pk) >= 4 and rng.random() < 0.35:
+        # dependencyManagement of ONE root only: R1 manages P (to its lowest version) and reaches it through M;
+        # R2 reaches P through the same M and manages nothing. Resolved one after the other on one resolver, R2 must
+        # still get the version M declares (management belongs to a resolution, not to the resolver).
+        R1, R2, M, P = rng.sample(pk, 4)
+        vs = [ve[0] for ve in P[1:]]
+        lowv, highv = vs[0], vs[-1]
+        R1[1][2][:] = [[[[6, b"management"]], P[0], lowv], [[], M[0], M[1][0]]]
+        R2[1][2][:] = [[[], M[0], M[1][0]]]
+        M[1][2][:] = [[[], P[0], highv]]
+        roots += [[R1[0], R1[1][0]], [R2[0], R2[1][0]], [R1[0], R1[1][0]]]
+    if sysr == 1:
+        # managed entries sprinkled over the universe (only a root's own management may act)
+        for p_ in pk:
+            for ve in p_[1:]:
+                if rng.random() < 0.15:
+                    q_ = rng.choice(pk)
+                    ve[2].append([[[6, b"management"]], q_[0], rng.choice(q_[1:])[0]])
     if len(pk) >= 5 and rng.random() < 0.35:
         # a universe with SEVERAL valid answers (the highest P needs a lower Q and vice versa): which one is found
         # depends on the order in which P and Q are decided, so any preference kept on the resolver from an earlier
@@ -147,6 +165,11 @@ def classify(ctx, case, line, race=False):
     sysr = case[0]
     name = ["npm", "Maven", "PyPI"][sysr]
     r = parse_sx(line)
+    if r and r[0] in (b"crash", b"crash-unreproduced"):
+        ctx.violation("%s: the process dies during the history (a Go fatal error cannot be recovered: concurrent map "
+                      "access, stack overflow); it runs a sequence of resolutions and then 16 goroutines over one client"
+                      % name, sx(case)[:6000], observed=r[1].decode("ascii", "replace"), required="every resolution returns")
+        return
     if r and r[0] == b"panic":
         ctx.violation("%s: purity history panics" % name, sx(case)[:6000])
         return
@@ -173,7 +196,7 @@ def run(ctx):
     rng = ctx.rng
     n = ctx.scale(240, 9000)
     cases = [universe(rng, i % 3) for i in range(n)]
-    outs = ctx.impl("purity", [sx(c) for c in cases])
+    outs = ctx.impl_surviving("purity", [sx(c) for c in cases])
     for c, o in zip(cases, outs):
         classify(ctx, c, o)
     ctx.sample({"case": sx(cases[0])[:1500], "result": outs[0]})
